@@ -5,6 +5,8 @@
 //@ anchor: serde_avro_fast/src/object_container_file_encoding/reader/mod.rs :: fn deserialize_next_inner<'de, S: DeserializeSeed<'de>>\(
 //@ anchor: serde_avro_fast/src/de/read/take.rs :: fn take\(self, block_size: usize\) -> Result<Self::Take, DeError> \{\n\t\tif block_size > self.slice.len\(\)
 //@ anchor: serde_avro_fast/src/de/read/take.rs :: impl<'de> IntoLeftAfterTake for SliceReadTake<'de> \{
+//@ anchor: serde_avro_fast/src/object_container_file_encoding/reader/decompression.rs :: pub\(super\) fn state<'de, 's, R>\(
+//@ anchor: serde_avro_fast/src/object_container_file_encoding/reader/decompression.rs :: pub\(super\) fn into_source_reader_and_config\(
 //@ include: spec
 //@ include: common
 
@@ -51,6 +53,13 @@ fn verif_unreachable_inflate(
 ) -> Result<flate2::Status, flate2::DecompressError> {
 	assert!(false, "OBL frame.null_codec_only_inflate_not_entered");
 	Ok(flate2::Status::StreamEnd)
+}
+
+/// Frame obligation (null codec only): constructing an inflate state is the first thing the deflate
+/// arm of `CompressionCodec::state` does.  The stand-in asserts it is NOT constructed; the panic also
+/// stops CBMC from exploring the `BufReader<DeflateDecoder<..>>` arms behind it.
+fn verif_unreachable_inflate_new(_zlib_header: bool) -> flate2::Decompress {
+	panic!("OBL frame.null_codec_only_inflate_state_not_constructed")
 }
 
 /// outcome of one deserialize_next::<i64>() call
@@ -155,6 +164,219 @@ fn c17_slice_take_contract() {
 		}
 	}
 }
+
+/// The datum decoder is abstracted (its contracts are C03/C04): this seed yields a value WITHOUT
+/// touching the deserializer it is handed, so every error seen through it is a framing error of the
+/// container reader itself, and block payloads are never consumed.
+struct IgnoreSeed;
+impl<'de> serde::de::DeserializeSeed<'de> for IgnoreSeed {
+	type Value = ();
+	fn deserialize<D: serde::Deserializer<'de>>(self, d: D) -> Result<(), D::Error> {
+		std::mem::forget(d);
+		Ok(())
+	}
+}
+#[derive(Clone, Copy, PartialEq, Eq)]
+enum Step {
+	Val,
+	End,
+	Error,
+}
+fn step(r: &mut Reader<de::read::SliceRead<'_>>) -> Step {
+	let x = r.deserialize_seed_next(IgnoreSeed);
+	let o = match &x {
+		Ok(Some(())) => Step::Val,
+		Ok(None) => Step::End,
+		Err(_) => Step::Error,
+	};
+	std::mem::forget(x);
+	o
+}
+
+
+//@ harness: c17_not_in_block_step
+//@   props: C17
+//@   tier: quick
+//@   kind: complete
+//@   fn: Reader::deserialize_seed_next / deserialize_next_inner from state NotInBlock (block header: count varint, size varint, CompressionCodec::state -> SliceRead::take), datum decoder abstracted by a seed that ignores its deserializer
+//@   domain: every file body of 0..=3 bytes (too short to hold a complete block), every sync marker; one call
+//@   post: empty input => end of stream; non-empty => never a silent end of stream; every error sets the end-of-stream latch (so by c17_broken_and_eof_latches it is reported once); a yielded value leaves the reader InBlock
+#[kani::proof]
+#[kani::unwind(5)]
+#[kani::stub(alloc::fmt::format, stub_format)]
+#[kani::stub(flate2::Decompress::decompress, verif_unreachable_inflate)]
+#[kani::stub(flate2::Decompress::new, verif_unreachable_inflate_new)]
+fn c17_not_in_block_step() {
+	let buf: [u8; 3] = kani::any();
+	let len: usize = kani::any();
+	kani::assume(len <= 3);
+	let sync: [u8; 16] = kani::any();
+	let mut r = reader_over!(&buf[..len], sync);
+	let a = step(&mut r);
+	kani::cover!(len == 1 && a == Step::Error, "COV cut inside the count varint");
+	kani::cover!(len == 2 && buf[0] == 2 && a == Step::Error, "COV cut inside the size varint");
+	kani::cover!(a == Step::Val, "COV block of zero-sized values entered");
+	if len == 0 {
+		assert!(a == Step::End, "OBL C17.empty_body.end_of_stream");
+		assert!(!r.pretend_eof_because_yielded_unrecoverable_error, "OBL C17.empty_body.not_an_error");
+	} else {
+		assert!(a != Step::End, "OBL C17.truncated.no_silent_end_of_stream_inside_a_block");
+	}
+	if a == Step::Error {
+		assert!(r.pretend_eof_because_yielded_unrecoverable_error, "OBL C17.framing_error.latches_end_of_stream");
+	}
+	if a == Step::Val {
+		assert!(matches!(r.reader_state, ReaderState::InBlock { .. }), "OBL C17.value.only_from_inside_a_block");
+	}
+	std::mem::forget(r);
+}
+
+
+macro_rules! leave_block_step {
+	($name:ident, $size:expr, $eat:expr) => {
+		#[kani::proof]
+		#[kani::unwind(5)]
+		#[kani::stub(alloc::fmt::format, stub_format)]
+		#[kani::stub(flate2::Decompress::decompress, verif_unreachable_inflate)]
+		#[kani::stub(flate2::Decompress::new, verif_unreachable_inflate_new)]
+		fn $name() {
+			use crate::de::read::take::Take;
+			use std::io::BufRead;
+			let buf: [u8; $size + 16] = kani::any();
+			let sync: [u8; 16] = kani::any();
+			let mut r = reader_over!(&buf[..], sync);
+			let mut sub = match de::read::SliceRead::new(&buf[..]).take($size) {
+				Ok(s) => s,
+				Err(e) => {
+					std::mem::forget(e);
+					return;
+				}
+			};
+			sub.consume($eat);
+			let old = std::mem::replace(
+				&mut r.reader_state,
+				ReaderState::InBlock {
+					codec_data: DecompressionState::Null {
+						deserializer_state: de::DeserializerState::with_config(
+							sub,
+							de::DeserializerConfig::from_schema_node(NodeRef::from_static(&N_LONG)),
+						),
+						decompression_buffer: Vec::new(),
+					},
+					n_objects_in_block: 0,
+				},
+			);
+			std::mem::forget(old);
+			let a = step(&mut r);
+			let trailing_ok = buf[$size..$size + 16] == sync[..];
+			kani::cover!(trailing_ok, "COV trailing marker equals the header's");
+			kani::cover!(!trailing_ok, "COV trailing marker differs");
+			if $eat < $size {
+				assert!(a == Step::Error, "OBL C17.corruption.data_left_in_block_is_an_error");
+			} else if !trailing_ok {
+				assert!(a == Step::Error, "OBL C17.corruption.sync_marker_mismatch_is_an_error");
+			} else {
+				assert!(a == Step::End, "OBL C17.block_end.matching_marker_then_exhausted_input_is_end_of_stream");
+				assert!(!r.pretend_eof_because_yielded_unrecoverable_error, "OBL C17.block_end.not_an_error");
+			}
+			if a == Step::Error {
+				assert!(r.pretend_eof_because_yielded_unrecoverable_error, "OBL C17.framing_error.latches_end_of_stream");
+			}
+			std::mem::forget(r);
+		}
+	};
+}
+
+//@ harness: c17_leave_block_step_empty_block
+//@   props: C17
+//@   tier: quick
+//@   kind: complete
+//@   fn: Reader::deserialize_next_inner from state InBlock with no objects left: DecompressionState::into_source_reader_and_config -> SliceReadTake::into_left_after_take, read_const_size_buf::<16>, sync marker comparison; then the NotInBlock end-of-input test
+//@   domain: block of declared size 0 followed by any 16 bytes and nothing else; every header sync marker; one call
+//@   post: trailing marker differs from the header's => Err and the end-of-stream latch is set; equal => the block is left and the exhausted input is a clean end of stream (no error latched)
+leave_block_step!(c17_leave_block_step_empty_block, 0, 0);
+
+//@ harness: c17_leave_block_step_consumed_block
+//@   props: C17
+//@   tier: quick
+//@   kind: complete
+//@   fn: Reader::deserialize_next_inner from state InBlock with no objects left (as above)
+//@   domain: block of declared size 1 whose byte was consumed, followed by any 16 bytes and nothing else; every header sync marker; one call
+//@   post: as c17_leave_block_step_empty_block; the marker is compared at the position right after the declared block size
+leave_block_step!(c17_leave_block_step_consumed_block, 1, 1);
+
+//@ harness: c17_leave_block_step_data_left
+//@   props: C17
+//@   tier: quick
+//@   kind: complete
+//@   fn: Reader::deserialize_next_inner from state InBlock with no objects left (as above)
+//@   domain: block of declared size 1 whose byte was NOT consumed by the declared number of objects (declared size / object count disagree with the contents), followed by any 16 bytes
+//@   post: Err whatever follows, and the end-of-stream latch is set (reported once by c17_broken_and_eof_latches)
+leave_block_step!(c17_leave_block_step_data_left, 1, 0);
+
+macro_rules! in_block_value_step {
+	($name:ident, $n:expr) => {
+		#[kani::proof]
+		#[kani::unwind(5)]
+		#[kani::stub(alloc::fmt::format, stub_format)]
+		#[kani::stub(flate2::Decompress::decompress, verif_unreachable_inflate)]
+		#[kani::stub(flate2::Decompress::new, verif_unreachable_inflate_new)]
+		fn $name() {
+			use crate::de::read::take::Take;
+			let buf: [u8; 2] = kani::any();
+			let sync: [u8; 16] = kani::any();
+			const N: usize = $n;
+			let mut r = reader_over!(&buf[..], sync);
+			let sub = match de::read::SliceRead::new(&buf[..]).take(1) {
+				Ok(s) => s,
+				Err(e) => {
+					std::mem::forget(e);
+					return;
+				}
+			};
+			let old = std::mem::replace(
+				&mut r.reader_state,
+				ReaderState::InBlock {
+					codec_data: DecompressionState::Null {
+						deserializer_state: de::DeserializerState::with_config(
+							sub,
+							de::DeserializerConfig::from_schema_node(NodeRef::from_static(&N_LONG)),
+						),
+						decompression_buffer: Vec::new(),
+					},
+					n_objects_in_block: N,
+				},
+			);
+			std::mem::forget(old);
+			let a = step(&mut r);
+			assert!(a == Step::Val, "OBL C17.in_block.one_value_per_call");
+			assert!(
+				matches!(r.reader_state, ReaderState::InBlock { n_objects_in_block, .. } if n_objects_in_block == N - 1),
+				"OBL C17.in_block.count_decreases_by_one_and_state_stays_in_block"
+			);
+			assert!(!r.pretend_eof_because_yielded_unrecoverable_error, "OBL C17.in_block.nothing_latched");
+			std::mem::forget(r);
+		}
+	};
+}
+
+//@ harness: c17_in_block_value_step_last
+//@   props: C17
+//@   tier: quick
+//@   kind: complete
+//@   fn: Reader::deserialize_next_inner from state InBlock with exactly one object left
+//@   domain: any block byte, any sync marker; datum decoder abstracted by the ignoring seed
+//@   post: exactly one value is requested from the datum decoder, the remaining count becomes 0, the reader stays InBlock (the block is left by the NEXT call: c17_leave_block_step_*), nothing is latched
+in_block_value_step!(c17_in_block_value_step_last, 1);
+
+//@ harness: c17_in_block_value_step_max
+//@   props: C17
+//@   tier: quick
+//@   kind: complete
+//@   fn: Reader::deserialize_next_inner from state InBlock with usize::MAX objects declared (hostile count)
+//@   domain: any block byte, any sync marker
+//@   post: one value per call, count decreases by one - no allocation or loop proportional to the declared count
+in_block_value_step!(c17_in_block_value_step_max, usize::MAX);
 
 //@ harness: c17_reader_canary
 //@   props: C17
